@@ -385,7 +385,7 @@ def run(ctx):
     for g, keys in fails.items():
         def size(k):
             r0 = keys[k][0]
-            seeded = bool(re.search(r"rand|=s\b|ws\b|seeded", r0.get("cls", "")))
+            seeded = bool(re.search(r"rand|=s\b|ws\b|seeded", coarse(r0.get("cls", ""))))
             return (r0.get("n") or r0.get("no") or 0, seeded, sum(len(v) if isinstance(v, list) else 0 for v in r0.values()), k)
         order = sorted(keys, key=size)
         total = sum(len(v) for v in keys.values())
